@@ -438,6 +438,24 @@ func runMachines(kc *kernelCtx, blocks []*Block, only string, want map[string]bo
 }
 
 func runOperator(kc *kernelCtx, b *Block) *Unit {
+	u := runOperator0(kc, b)
+	if !hasBindingErr(u) {
+		return u
+	}
+	top := kc.w.allFuncs(b.Pkg)[b.Name]
+	if top == nil {
+		return u
+	}
+	var extra []*Block
+	for k, lb := range kc.loops {
+		if strings.HasPrefix(k, b.Pkg+"::"+b.Name+"$") || strings.HasPrefix(k, b.Pkg+"::"+b.Name+"#") {
+			extra = append(extra, lb)
+		}
+	}
+	return kc.tryRebind(u, b, b.Name, "", availFor(top), extra, func(k2 *kernelCtx, nb *Block) *Unit { return runOperator0(k2, nb) })
+}
+
+func runOperator0(kc *kernelCtx, b *Block) *Unit {
 	u := &Unit{Name: b.Name, Props: b.props(), Layer: "M"}
 	sp, err := parseOpSpec(b)
 	if err != nil {
